@@ -103,9 +103,33 @@ static std::vector<Pair> pairs() {
 }
 static const int NMODE = 4;   // bit0: follow partial streams; bit1: scaled-down buffer limits + explicit 10 s keep-alive
 
+// Flag styles.  The property talks about flags being PRESENT ("initial SYN" = SYN set and ACK clear, "sent FIN", "sent RST"), so the flag
+// byte of every packet kind is a small domain, not a constant: each connection of a configuration is built in one of these styles.  The
+// reference model never sees the style: its reaction depends on the SYN/ACK/FIN/RST bits only, and the follower must agree.
+//   plain      the minimal flag bytes
+//   ecn-setup  RFC 3168: SYN|ECE|CWR, SYN|ACK|ECE, ECE echoed on the pure ACK, CWR on data
+//   ece, cwr, psh, urg: the opening SYN carries that one extra bit; the other kinds carry other harmless extras (PSH/URG/ECE on the
+//              SYN|ACK, data with and without PSH / with URG, FIN|PSH|ACK, FIN|URG|ACK, a bare FIN, RST with ACK/PSH/URG on either side)
+struct FlagStyle { const char* name; uint8_t syn, synack, ack, data, fin, crst, srst; };
+static const FlagStyle STYLE[] = {
+    {"plain", TCP::SYN, TCP::SYN | TCP::ACK, TCP::ACK, TCP::PSH | TCP::ACK, TCP::FIN | TCP::ACK, TCP::RST, TCP::RST | TCP::ACK},
+    {"ecn-setup", TCP::SYN | TCP::ECE | TCP::CWR, TCP::SYN | TCP::ACK | TCP::ECE, TCP::ACK | TCP::ECE, TCP::PSH | TCP::ACK | TCP::CWR,
+     TCP::FIN | TCP::ACK, TCP::RST, TCP::RST | TCP::ACK},
+    {"ece", TCP::SYN | TCP::ECE, TCP::SYN | TCP::ACK | TCP::ECE, TCP::ACK, TCP::ACK | TCP::ECE, TCP::FIN | TCP::PSH | TCP::ACK,
+     TCP::RST | TCP::ACK, TCP::RST},
+    {"cwr", TCP::SYN | TCP::CWR, TCP::SYN | TCP::ACK | TCP::PSH, TCP::ACK | TCP::CWR, TCP::PSH | TCP::ACK | TCP::CWR, TCP::FIN | TCP::ACK | TCP::URG,
+     TCP::RST | TCP::PSH, TCP::RST | TCP::ACK | TCP::URG},
+    {"psh", TCP::SYN | TCP::PSH, TCP::SYN | TCP::ACK | TCP::ECE, TCP::ACK | TCP::PSH, TCP::ACK | TCP::URG, TCP::FIN | TCP::PSH | TCP::ACK,
+     TCP::RST | TCP::ACK | TCP::PSH, TCP::RST | TCP::ACK},
+    {"urg", TCP::SYN | TCP::URG, TCP::SYN | TCP::ACK | TCP::URG, TCP::ACK | TCP::URG, TCP::PSH | TCP::URG | TCP::ACK, TCP::FIN,
+     TCP::RST | TCP::URG, TCP::RST | TCP::PSH | TCP::ACK},
+};
+static const int NSTYLE = 6;
+
 struct Cfg {
     bool partial, scaled;
     int mode, pair, t[2], alias;
+    int fl[2];           // flag style of connection a / b
     int64_t ka;          // keep-alive in microseconds
     size_t maxc;         // chunk limit
     uint32_t maxb;       // byte limit
@@ -146,20 +170,21 @@ static PDU* make_packet(const Conn& c, int side, uint8_t flags, uint32_t seq, ui
     return new EthernetII(wire.data(), (uint32_t)wire.size());
 }
 
-static PDU* build_kind(const Conn& c, int conn, int kind) {
+static PDU* build_kind(const Conn& c, int conn, int kind, int style = 0) {
     int side = kind_side(kind), seg = kind_seg(kind);
     const uint32_t* isn = c.t.isn;
+    const FlagStyle& f = STYLE[style];
     Bytes pl;
     switch (kind) {
-    case SYN: return make_packet(c, 0, TCP::SYN, isn[0], 0, pl);
-    case SYNACK: return make_packet(c, 1, TCP::SYN | TCP::ACK, isn[1], isn[0] + 1, pl);
-    case ACK: return make_packet(c, 0, TCP::ACK, isn[0] + 1, isn[1] + 1, pl);
-    case CFIN: case SFIN: return make_packet(c, side, TCP::FIN | TCP::ACK, isn[side] + 1 + SLEN[side], isn[1 - side] + 1, pl);
-    case CRST: return make_packet(c, 0, TCP::RST, isn[0] + 1, 0, pl);
-    case SRST: return make_packet(c, 1, TCP::RST | TCP::ACK, isn[1] + 1, isn[0] + 1, pl);
+    case SYN: return make_packet(c, 0, f.syn, isn[0], 0, pl);
+    case SYNACK: return make_packet(c, 1, f.synack, isn[1], isn[0] + 1, pl);
+    case ACK: return make_packet(c, 0, f.ack, isn[0] + 1, isn[1] + 1, pl);
+    case CFIN: case SFIN: return make_packet(c, side, f.fin, isn[side] + 1 + SLEN[side], isn[1 - side] + 1, pl);
+    case CRST: return make_packet(c, 0, f.crst, isn[0] + 1, 0, pl);
+    case SRST: return make_packet(c, 1, f.srst, isn[1] + 1, isn[0] + 1, pl);
     default:
         for (int i = 0; i < SEG_LEN[side][seg]; ++i) pl.push_back(data_byte(conn, side, SEG_OFF[side][seg] + i));
-        return make_packet(c, side, TCP::PSH | TCP::ACK, isn[side] + 1 + SEG_OFF[side][seg], isn[1 - side] + 1, pl);
+        return make_packet(c, side, f.data, isn[side] + 1 + SEG_OFF[side][seg], isn[1 - side] + 1, pl);
     }
 }
 
@@ -169,9 +194,10 @@ static void resolve(Conn& c, const Tmpl& t) {
     else { c.c4 = IPv4Address(t.ca); c.s4 = IPv4Address(t.sa); }
 }
 
-static void setup_cfg(int mode, int pair) {
+static void setup_cfg(int mode, int pair, int fa = 0, int fb = 0) {
     Cfg& c = g_cfg;
     c.mode = mode; c.pair = pair;
+    c.fl[0] = fa; c.fl[1] = fb;
     c.partial = mode & 1; c.scaled = mode & 2;
     Pair p = pairs()[pair];
     c.t[0] = p.a; c.t[1] = p.b; c.alias = p.alias;
@@ -185,7 +211,14 @@ static void setup_cfg(int mode, int pair) {
     c.dt[0] = 0; c.dt[1] = c.ka / 2; c.dt[2] = c.ka; c.dt[3] = c.ka + 1;
     for (int i = 0; i < 2; ++i) {
         resolve(g_conn[i], TM[c.t[i]]);
-        for (int k = 0; k < NKIND; ++k) g_conn[i].pk[k].reset(build_kind(g_conn[i], i, k));
+        for (int k = 0; k < NKIND; ++k) g_conn[i].pk[k].reset(build_kind(g_conn[i], i, k, c.fl[i]));
+        // the re-parsed frames must really carry the style's flag bytes (serializer and parser keep all eight bits)
+        const FlagStyle& f = STYLE[c.fl[i]];
+        const uint8_t want[NKIND] = {f.syn, f.synack, f.ack, f.data, f.data, f.data, f.data, f.data, f.data, f.fin, f.fin, f.crst, f.srst};
+        for (int k = 0; k < NKIND; ++k)
+            if ((unsigned)g_conn[i].pk[k]->rfind_pdu<TCP>().flags() != want[k])
+                R.violation("harness:packet-flags", std::string("packet kind ") + KNAME[k] + " of style " + f.name + " parsed with flags " +
+                            str((unsigned)g_conn[i].pk[k]->rfind_pdu<TCP>().flags()) + " instead of " + str((unsigned)want[k]), "");
     }
     static const Tmpl third = {false, "9.9.9.9", "8.8.8.8", 7777, 443, {424242u, 515151u}, "third-party"};
     resolve(g_conn[XCONN], third);
@@ -193,11 +226,11 @@ static void setup_cfg(int mode, int pair) {
     g_conn[XCONN].pk[CD0].reset(build_kind(g_conn[XCONN], XCONN, CD0));
 }
 static std::string cfg_ctx() {
-    return "mode=bfs cfgm=" + str(g_cfg.mode) + " pair=" + str(g_cfg.pair);
+    return "mode=bfs cfgm=" + str(g_cfg.mode) + " pair=" + str(g_cfg.pair) + " fl=" + str(g_cfg.fl[0]) + str(g_cfg.fl[1]);
 }
 static std::string cfg_desc() {
     return std::string("partial=") + (g_cfg.partial ? "on" : "off") + " limits=" + (g_cfg.scaled ? "2chunks/4bytes ka=10s" : "default") +
-           " a=" + TM[g_cfg.t[0]].name + " b=" + TM[g_cfg.t[1]].name;
+           " a=" + TM[g_cfg.t[0]].name + "/" + STYLE[g_cfg.fl[0]].name + " b=" + TM[g_cfg.t[1]].name + "/" + STYLE[g_cfg.fl[1]].name;
 }
 
 // ------------------------------------------------------------------------------------------
@@ -655,8 +688,8 @@ static int target_depth(int prof, bool partial) {
     return PROF[prof].depth[g_fast_stage ? 1 : 0][A.thorough() ? 1 : 0][partial ? 1 : 0];
 }
 
-static void run_bfs(int prof, int mode, int pair) {
-    setup_cfg(mode, pair);
+static void run_bfs(int prof, int mode, int pair, int fa, int fb) {
+    setup_cfg(mode, pair, fa, fb);
     const Profile& P = PROF[prof];
     const std::string ctx = cfg_ctx() + " prof=" + P.name;
     const std::string sfx = g_cfg.alias ? ":v4v6-zero-padded-alias" : "";
@@ -857,15 +890,30 @@ int main(int argc, char** argv) {
         bool extra = (p.a == 1 && p.b == 3) || (p.a == 4 && p.b == 5) || (p.a == 7 && p.b == 9) || (p.a == 8 && p.b == 10);
         if (thorough || p.a == 0 || (!g_fast_stage && extra)) jp.push_back(i);
     }
-    const int npairs = (int)jp.size();
-    int nbfs = NPROF * NMODE * npairs;
+    // Jobs.  (1) every pair of this stage x configuration x profile: connection a in the plain flag style, connection b in style
+    // (pair index mod 6), so that every style meets several pair relations at no extra cost.  (2) flag families: on the base pair
+    // (v4, v4-other-client-port) - thorough also (v4, v6) - both connections in non-plain styles (s, s+1): quick s = ecn-setup and psh
+    // (i.e. styles ecn-setup/ece and psh/urg; plain-build stage, FULL and DATA alphabets), thorough every s in both stages and all alphabets.
+    struct Job { int prof, mode, pair, fa, fb; };
+    std::vector<Job> jobs;
+    static const int mode_order[NMODE] = {3, 1, 2, 0};   // heaviest first (partial-stream modes)
+    for (int prof = 0; prof < NPROF; ++prof)
+        for (int mi = 0; mi < NMODE; ++mi) {
+            for (int pi : jp) jobs.push_back(Job{prof, mode_order[mi], pi, 0, pi % NSTYLE});
+            for (int s = 1; s < NSTYLE; ++s) {
+                // quick tier: two families, in the deep plain-build stage, FULL and DATA alphabets (TIME's packet kinds are a subset of FULL's)
+                if (!thorough && ((s != 1 && s != 4) || !g_fast_stage || prof == 2)) continue;
+                int s2 = s % (NSTYLE - 1) + 1;
+                jobs.push_back(Job{prof, mode_order[mi], 0, s, s2});
+                if (thorough) jobs.push_back(Job{prof, mode_order[mi], 3, s, s2});
+            }
+        }
+    int nbfs = (int)jobs.size();
     return run_main(argc, argv, nbfs + 1, nbfs + 1,
-        [nbfs, npairs, jp](int job) {
+        [nbfs, jobs](int job) {
             if (job < nbfs) {
-                // heaviest first (partial-stream modes), pairs innermost
-                static const int mode_order[NMODE] = {3, 1, 2, 0};
-                int pair = jp[job % npairs], mode = mode_order[job / npairs % NMODE], prof = job / npairs / NMODE;
-                run_bfs(prof, mode, pair);
+                const Job& j = jobs[job];
+                run_bfs(j.prof, j.mode, j.pair, j.fa, j.fb);
                 return;
             }
             if (g_fast_stage) return;   // the linear runs belong to the sanitizer stage
@@ -886,7 +934,10 @@ int main(int argc, char** argv) {
                 run_linear(v, false);
                 err = run_linear(v, true);
             } else {
-                setup_cfg(atoi(kv["cfgm"].c_str()), atoi(kv["pair"].c_str()));
+                std::string fl = kv.count("fl") && kv["fl"].size() == 2 ? kv["fl"] : "00";   // cases recorded before flag styles existed: plain
+                int fa = fl[0] - '0', fb = fl[1] - '0';
+                if (fa < 0 || fa >= NSTYLE || fb < 0 || fb >= NSTYLE) { printf("bad fl\n"); return 2; }
+                setup_cfg(atoi(kv["cfgm"].c_str()), atoi(kv["pair"].c_str()), fa, fb);
                 printf("configuration: %s\n", cfg_desc().c_str());
                 std::vector<uint8_t> ops;
                 std::string s = kv["ops"];
